@@ -82,20 +82,29 @@ def splitAt1 (p : Char → Bool) : List Char → List Char × Option (List Char)
 def allDigits (ds : List Char) : Bool := ds.all Char.isDigit
 def digitsVal (ds : List Char) : Nat := Nat.ofDigitChars 10 ds 0
 
+/-- optional `-` -/
+def splitMinus : List Char → Bool × List Char
+  | '-' :: r => (true, r)
+  | cs => (false, cs)
+
+/-- optional `+` or `-` (Rust's `Sign?`) -/
+def splitSign : List Char → Bool × List Char
+  | '+' :: r => (false, r)
+  | '-' :: r => (true, r)
+  | cs => (false, cs)
+
 /-- the harness' exact notation `-?digits/digits` (1–18 digits each, non-zero denominator);
     not part of the file format: the implementation driver rewrites such a token to the
     shortest decimal of the quotient before the real loader sees it -/
 def parseRatio (cs : List Char) : Option Rat :=
   match splitAt1 (· = '/') cs with
-  | (a, some b) =>
-    let (neg, a) := match a with
-      | '-' :: r => (true, r)
-      | _ => (false, a)
+  | (a0, some b) =>
+    let neg := (splitMinus a0).1
+    let a := (splitMinus a0).2
     if a.isEmpty || b.isEmpty || !allDigits a || !allDigits b || 18 < a.length || 18 < b.length then none else
     let q := digitsVal b
     if q = 0 then none else
-    let v : Rat := mkRat (digitsVal a) q
-    some (if neg then -v else v)
+    some (mkRat (if neg then -(digitsVal a : Int) else (digitsVal a : Int)) q)
   | _ => none
 
 /-- the finite part of Rust's `f64::from_str` grammar
@@ -105,10 +114,8 @@ def parseRatio (cs : List Char) : Option Rat :=
     exponents above 30 in magnitude are refused; the rounding to the nearest `f64` is not
     modelled (the generators only use exactly representable values). -/
 def parseDecimal (cs : List Char) : Option Rat :=
-  let (neg, body) := match cs with
-    | '+' :: r => (false, r)
-    | '-' :: r => (true, r)
-    | _ => (false, cs)
+  let neg := (splitSign cs).1
+  let body := (splitSign cs).2
   match splitAt1 (fun c => c = 'e' || c = 'E') body with
   | (mant, ex) =>
     match splitAt1 (· = '.') mant with
@@ -118,18 +125,17 @@ def parseDecimal (cs : List Char) : Option Rat :=
       let e? : Option Int := match ex with
         | none => some 0
         | some e =>
-          let (eneg, ed) := match e with
-            | '+' :: r => (false, r)
-            | '-' :: r => (true, r)
-            | _ => (false, e)
+          let eneg := (splitSign e).1
+          let ed := (splitSign e).2
           if ed.isEmpty || !allDigits ed || 30 < digitsVal ed then none
           else some (if eneg then -(digitsVal ed : Int) else (digitsVal ed : Int))
       match e? with
       | none => none
       | some e =>
-        let mag : Rat := (digitsVal (ip ++ fpd) : Rat) / ((10 : Rat) ^ fpd.length)
-        let sc : Rat := if e < 0 then mag / ((10 : Rat) ^ e.natAbs) else mag * ((10 : Rat) ^ e.natAbs)
-        some (if neg then -sc else sc)
+        -- ± digits · 10^(e - |fraction|), exactly
+        let n : Int := if neg then -(digitsVal (ip ++ fpd) : Int) else (digitsVal (ip ++ fpd) : Int)
+        some (if e < 0 then mkRat n (10 ^ (fpd.length + e.natAbs))
+              else mkRat (n * 10 ^ e.natAbs) (10 ^ fpd.length))
 
 def parseCoord (s : String) : Option Rat :=
   let cs := s.toList
